@@ -226,6 +226,8 @@ AlphaLimits ==
      EvIdX("OnRecordType", "bb", 2, TRUE), EvIdX("OnRecordType", "ccc", 3, TRUE),
      EvIdX("OnMarker", "a", 1, TRUE), EvIdX("OnReferenceLocal", "a", 1, TRUE),
      EvIdX("OnMarker", "bb", 2, TRUE), EvIdX("OnMarker", "ccc", 3, TRUE), EvIdX("OnReferenceLocal", "ccc", 3, TRUE),
+     (* two letters of two bytes each (the harness writes U as a two-byte letter): length 4 *)
+     EvIdX("OnMarker", "UU", 4, TRUE),
      EvStr(<<97, 98>>), EvStr(<<97, 98, 99>>), EvStr(<<97, 98, 99, 100>>), EvRid(<<97, 98, 99, 100>>),
      EvArr("au8", 3, <<1, 2, 3>>), EvArr("au16", 2, <<1, 2, 3, 4>>), EvArr("abit", 24, <<1, 2, 3>>),
      EvArr("abit", 25, <<1, 2, 3, 4>>), [EvMedia(<<1, 2, 3, 4>>) EXCEPT !.mt = "a/b"],
